@@ -26,6 +26,10 @@ Print Assumptions C20_lookup_present.
 Definition cfg_ok_C20 : Prop := xspec_env_dup_checked = true /\ GroupIdsP.cfg_ok group_cfg.
 Lemma C20_cfg_ok : cfg_ok_C20.
 Proof. split; [reflexivity|split; reflexivity]. Qed.
+(* the lookup functions have the modelled shape: scan of the member list by identity or id (theorem C20_lookup_agree is about
+   exactly that scan) *)
+Lemma C20_lookup_shape_ok : grp_lookup_ok = true.
+Proof. reflexivity. Qed.
 
 (* a repeated key of either kind is rejected with ValueError *)
 Theorem C20_dup : forall kvs,
